@@ -70,6 +70,18 @@ impl Ctx {
         self.ids = self.metas.iter().map(|m| r.register_type(m).id).collect();
         let p: PortableRegistry = r.into();
         self.put(&json!({"ev": "Reg", "ids": self.ids, "types": proj::registry(Mode::Plain, &p)}));
+        // C11 (iii): the same roots in another order (reversed, and rotated) -> same registry up to renaming
+        for k in [0usize, self.metas.len() / 3] {
+            let mut order: Vec<usize> = (0..self.metas.len()).rev().collect();
+            order.rotate_left(k);
+            let mut r2 = Registry::new();
+            let mut ids2 = vec![0u32; self.metas.len()];
+            for &i in &order {
+                ids2[i] = r2.register_type(&self.metas[i]).id;
+            }
+            let p2: PortableRegistry = r2.into();
+            self.put(&json!({"ev": "Perm", "ids1": self.ids, "types1": proj::registry(Mode::Plain, &p), "ids2": ids2, "types2": proj::registry(Mode::Plain, &p2)}));
+        }
         self.reg = Some(p);
         let n = self.metas.len();
         let h = |m: &MetaType| {
